@@ -66,8 +66,8 @@ def run(ctx):
     scripts = ctx.tlc_gen("MC_Wal", GEN.format(maxh=4 if q else 6, maxa=3 if q else 4, masks="{1, 128}" if q else "{1, 128, 255}",
                                                 legacy="FALSE", view="VIEW View", emit="ACTION_CONSTRAINT Emit", extra=""),
                           "cover", workers=4, timeout=2400)
-    # every operation sequence of length 4 (no VIEW): histories the state-based cover reaches by one path only
-    scripts += ctx.tlc_gen("MC_Wal", GEN.format(maxh=4, maxa=3, masks="{128}" if q else "{1, 255}", legacy="FALSE", view="",
+    # every operation sequence of length 3/4 (no VIEW): histories the state-based cover reaches by one path only
+    scripts += ctx.tlc_gen("MC_Wal", GEN.format(maxh=3 if q else 4, maxa=3, masks="{128}" if q else "{1, 255}", legacy="FALSE", view="",
                                                  emit="ACTION_CONSTRAINT EmitLeaf", extra=""),
                            "allseq", workers=4, timeout=2400)
     # long random walks (several crashes and reopenings in one history)
